@@ -18,7 +18,17 @@ word ids): what words map to is C15's business; here it is a parameter of the mo
 Floats: the driver prints IEEE bit patterns, `post_model` turns them into repr(float); values are compared
 with relative tolerance 2e-6 (IF buckets store 32-bit floats).
 
-Mutation sanity check: see MUTATIONS below (filled in after the runs).
+Mutation sanity check (scratch copies VERIF_REPO=/var/tmp/mut_score_N, quick tier; all 9 gave VIOLATION
+with a shrunk failing input, implementation != specification):
+  1 okascore.c  K1 1.2 -> 1.3                (C loop only; needs tf > 1 or len != mean)
+  2 okascore.c  B 0.75 -> 0.7                (needs len != mean)
+  3 okapiindex.py (Python loop) lenweight uses meandoclen / len instead of len / meandoclen
+  4 baseindex.py  idf = log(1 + n/N) instead of log(1 + N/n)
+  5 cosineindex.py doc_term_weight = log(1 + count) instead of 1 + log(count)
+  6 okapiindex.py unindex_doc no longer subtracts the document length (stale total after unindex)
+  7 cosineindex.py query_weight returns the sum instead of its square root
+  8 okapiindex.py (Python loop) K1_plus1 = K1 + 1.1
+  9 okapiindex.py reindex_doc no longer adds the new length (D19 re-introduced)
 """
 import importlib.util
 import math
@@ -32,7 +42,10 @@ from lib.core import exc_name
 ID = "C08"
 BUILD_C = True
 AUDIT_IMPORTS = ["HypatiaProofs.Properties.C08"]
-THEOREMS = []
+THEOREMS = ["Hyp.C08." + t for t in (
+    "c08_table_of_history", "c08_total_length_counter", "c08_search", "c08_search_no_wids", "c08_glob",
+    "c08_phrase", "c08_phrase_is_sublist", "c08_query_weight", "c08_history_independent",
+    "c08_okapi_formula", "c08_cosine_formula", "c08_score_loop")]
 CASES = {"quick": 1200, "thorough": 40000}
 BUDGET_S = {"quick": 45, "thorough": 780}
 BATCH = 40
